@@ -4,7 +4,7 @@ import itertools
 
 ID = "C11"
 THEOREM_MODULE = "SimVerif.Props.C11"
-THEOREM_MODULES = ["SimVerif.Props.C11", "SimVerif.Tie.Track"]
+THEOREM_MODULES = ["SimVerif.Props.C11", "SimVerif.Tie.Track", "SimVerif.Props.C11s"]
 NONTRIVIAL_FLAGS = {"fails", "fails-after-update", "fails-multi-class", "history-on", "no-class-present", "multi-class", "dup-class", "truncation",
                     "merge-CB", "merge-NOTFOUND", "merge-SAME", "add-missing"}
 RULE = ("cases = `track new` (tracks with 0..3 feature classes built through the builder), then `track add` / `track merge dst src classes flag` sequences, and `store add|mext|mextnb|mown` sequences; "
